@@ -22,6 +22,22 @@ Proof.
           (proj1 (pde_forward_is_function_of_input P slv st' x)). reflexivity.
 Qed.
 
+(* a whole sample collection on one PDE object: every column's observation is what that column gives on a fresh object (in
+   any order, from any initial state), and the object ends in the state of the LAST column *)
+Theorem pde_columns_are_independent P slv st cols :
+  fst (pde_forward_columns P slv st cols) = map (fun x => Ok (f_apply (pde_fwd P slv) x)) cols /\
+  snd (pde_forward_columns P slv st cols) = match rev cols with x :: _ => Some (pde_form P x) | [] => st end.
+Proof.
+  revert st; induction cols as [|x r IH]; intros st; [split; reflexivity|].
+  cbn [pde_forward_columns].
+  destruct (pde_forward_func P slv st x) as [y st1] eqn:E1.
+  pose proof (pde_forward_is_function_of_input P slv st x) as [Hy Hs]. rewrite E1 in Hy, Hs. cbn [fst snd] in Hy, Hs.
+  destruct (pde_forward_columns P slv st1 r) as [ys st2] eqn:E2.
+  specialize (IH st1). rewrite E2 in IH. cbn [fst snd] in IH. destruct IH as [IH1 IH2]. cbn [fst snd map]. split.
+  - rewrite Hy, IH1. reflexivity.
+  - rewrite IH2. cbn [rev]. destruct (rev r) as [|z l] eqn:Er; cbn [app]; [exact Hs | reflexivity].
+Qed.
+
 (* ---- linear algebra for the checked solver ------------------------------------------------------ *)
 Lemma qdot_cons a r b h : qdot (a :: r) (b :: h) = a * b + qdot r h.
 Proof. reflexivity. Qed.
